@@ -27,6 +27,10 @@ def oracle(k, w):
         m = wo.check_sta(w, k.c, np.asarray(k.delays), times, lane, k.strip, all_lines=not k.reuse, polfree=polfree)
         if m:
             return f'lane {lane}: {m}'
+        if not k.reuse:
+            m = wo.check_emit_sum(w, k.c, np.asarray(k.delays), lane, k.strip)
+            if m:
+                return f'lane {lane}: {m}'
     base = np.asarray(w.c).astype(np.float64)
     fm = finite_mask(base)
     for delta in (16.0, -5.0):
@@ -56,7 +60,7 @@ def oracle(k, w):
 def run(ck):
     if THEOREMS:
         ck.prove('C04', THEOREMS)
-    fails, mism = wk.campaign(ck, ck.scale(40, 1200), oracle, coq_lanes=1, coq_every=2)
+    fails, mism = wk.campaign(ck, ck.scale(60, 1500), oracle, gen_kw={'extra_prob': 0.6}, coq_lanes=1, coq_every=2)
     ck.rule('random circuits x integer delay tables x capacities x multi-transition input waveforms on the integer (dyadic) grid; '
             'oracle: independent static timing analysis over the annotated netlist, reruns shifted by +16/-5 and scaled by 4 and 1/2, '
             'strict monotonicity for polarity-independent delay tables')
